@@ -260,6 +260,9 @@ func runC13(w *World, r *Report) {
 					found[name] = w.instrPos(ins)
 				}
 			}
+			if why := libraryStateWriter(w, f, 0, map[*ssa.Function]bool{}); why != "" {
+				found[name+" (reconfigures its library for the rest of the process: "+why+")"] = w.instrPos(ins)
+			}
 			if bad := pointerFormatting(call); bad != "" {
 				found["fmt address formatting: "+bad] = w.instrPos(ins)
 			}
@@ -502,6 +505,39 @@ func classifyMapLoop(w *World, fn *ssa.Function, lp rangeLoop, wsum map[*ssa.Fun
 				}
 			}
 		}
+	}
+	// file-system effects and a way out of the loop before it is exhausted (return / break): which files exist afterwards depends
+	// on how many iterations ran before the exit, i.e. on the order
+	fsx := fsEffectFuncs(w)
+	var fsAt, exitAt ssa.Instruction
+	for _, b := range fn.Blocks {
+		if !lp.Blocks[b] {
+			continue
+		}
+		for _, ins := range b.Instrs {
+			if c, ok := ins.(ssa.CallInstruction); ok && fsAt == nil {
+				f := c.Common().StaticCallee()
+				if f == nil && !c.Common().IsInvoke() {
+					f = closureTarget(c.Common().Value, 0)
+				}
+				if f != nil && (isFsEffect(f) || fsx[f]) {
+					fsAt = ins
+				}
+			}
+			if _, ok := ins.(*ssa.Return); ok && exitAt == nil {
+				exitAt = ins
+			}
+		}
+		if b != header && exitAt == nil {
+			for _, s := range b.Succs {
+				if !lp.Blocks[s] && len(b.Instrs) > 0 {
+					exitAt = b.Instrs[len(b.Instrs)-1]
+				}
+			}
+		}
+	}
+	if fsAt != nil && exitAt != nil {
+		bad = append(bad, fmt.Sprintf("files are created / written inside the loop (%s at %s) and the loop can be left before it is exhausted (%s): after a failure the set of files on disk depends on the iteration order", calleeName(fsAt.(ssa.CallInstruction)), w.instrPos(fsAt), w.instrPos(exitAt)))
 	}
 	// a `break` carrying state out: covered by Store/Phi rules above (values leave only through those or returns)
 	// phis *after* the loop that merge iteration-dependent values (e.g. found := v; break)
@@ -795,4 +831,123 @@ func implementsStringerOrError(t types.Type) bool {
 		}
 	}
 	return false
+}
+
+// isFsEffect: a standard-library call that creates, writes, renames or removes a file or directory.
+func isFsEffect(f *ssa.Function) bool {
+	switch f.String() {
+	case "os.Create", "os.WriteFile", "os.MkdirAll", "os.Mkdir", "os.OpenFile", "os.Remove", "os.RemoveAll", "os.Rename", "os.CreateTemp", "os.MkdirTemp",
+		"io/ioutil.WriteFile", "(*os.File).Write", "(*os.File).WriteString", "(*os.File).WriteAt", "(*os.File).Truncate", "os.Truncate", "os.Symlink", "os.Link":
+		return true
+	}
+	return false
+}
+
+var fsEffectMemo map[*ssa.Function]bool
+
+// fsEffectFuncs: repo functions that (transitively, through static calls and closures) have a file-system effect.
+func fsEffectFuncs(w *World) map[*ssa.Function]bool {
+	if fsEffectMemo != nil {
+		return fsEffectMemo
+	}
+	out := map[*ssa.Function]bool{}
+	for changed := true; changed; {
+		changed = false
+		for _, fn := range w.srcFuncs {
+			if out[fn] {
+				continue
+			}
+			forEachInstr(fn, func(_ *ssa.BasicBlock, ins ssa.Instruction) {
+				c, ok := ins.(ssa.CallInstruction)
+				if !ok || out[fn] {
+					return
+				}
+				f := c.Common().StaticCallee()
+				if f == nil && !c.Common().IsInvoke() {
+					f = closureTarget(c.Common().Value, 0)
+				}
+				if f != nil && (isFsEffect(f) || out[f]) {
+					out[fn] = true
+					changed = true
+				}
+			})
+			for _, a := range fn.AnonFuncs {
+				if out[a] && !out[fn] {
+					// a closure with the effect makes its maker a carrier only when called; handled by closureTarget above
+					_ = a
+				}
+			}
+		}
+	}
+	fsEffectMemo = out
+	return out
+}
+
+// libraryStateWriter: f belongs to a third-party library (not the standard library, not the ANTLR runtime, not the repo) and
+// - itself or through functions of the same package - stores into a package-level variable of that library or modifies a
+// package-level sync.Map. Such a call changes what later calls into the library return, for the rest of the process: the text
+// produced before it and after it (next target, next compilation in the same process) differs for the same input.
+func libraryStateWriter(w *World, f *ssa.Function, depth int, seen map[*ssa.Function]bool) string {
+	if f == nil || f.Pkg == nil || f.Blocks == nil || depth > 4 || seen[f] {
+		return ""
+	}
+	seen[f] = true
+	path := f.Pkg.Pkg.Path()
+	if !strings.Contains(strings.SplitN(path, "/", 2)[0], ".") { // standard library
+		return ""
+	}
+	if strings.Contains(path, "antlr4-go/antlr") || f.Pkg == w.Parser || f.Pkg == w.Model || f.Pkg == w.Cmd || f.Pkg == w.Grammar {
+		return ""
+	}
+	why := ""
+	isGlobalRoot := func(v ssa.Value) *ssa.Global {
+		for i := 0; i < 6; i++ {
+			switch x := v.(type) {
+			case *ssa.Global:
+				return x
+			case *ssa.FieldAddr:
+				v = x.X
+			case *ssa.IndexAddr:
+				v = x.X
+			case *ssa.UnOp:
+				v = x.X
+			default:
+				return nil
+			}
+		}
+		return nil
+	}
+	forEachInstr(f, func(_ *ssa.BasicBlock, ins ssa.Instruction) {
+		if why != "" {
+			return
+		}
+		switch x := ins.(type) {
+		case *ssa.Store:
+			if g := isGlobalRoot(x.Addr); g != nil && g.Pkg == f.Pkg {
+				why = "assigns " + g.Pkg.Pkg.Name() + "." + g.Name()
+			}
+		case *ssa.MapUpdate:
+			if g := isGlobalRoot(x.Map); g != nil && g.Pkg == f.Pkg {
+				why = "inserts into " + g.Pkg.Pkg.Name() + "." + g.Name()
+			}
+		case ssa.CallInstruction:
+			c := x.Common().StaticCallee()
+			if c == nil {
+				return
+			}
+			switch c.String() {
+			case "(*sync.Map).Store", "(*sync.Map).Delete", "(*sync.Map).LoadOrStore", "(*sync.Map).Swap", "(*sync.Map).CompareAndSwap", "(*sync.Map).LoadAndDelete", "(*sync.Map).Clear":
+				if len(x.Common().Args) > 0 {
+					if g := isGlobalRoot(x.Common().Args[0]); g != nil && g.Pkg == f.Pkg {
+						why = "modifies " + g.Pkg.Pkg.Name() + "." + g.Name()
+					}
+				}
+				return
+			}
+			if c.Pkg == f.Pkg {
+				why = libraryStateWriter(w, c, depth+1, seen)
+			}
+		}
+	})
+	return why
 }
